@@ -7,6 +7,7 @@ the rejection sampler through all its retries into the dense fallback).  Every
 completed execution is checked against the shape promised by the property.
 """
 import itertools
+import collections
 import math
 
 from engine import xp, tt
@@ -71,6 +72,22 @@ def parity_ok(X, b, a):
 
 
 def compatible_parities(k, n, planted):
+    if n > 8 and len(planted) > 1:
+        # Large case with several planted assignments: give every variable the
+        # vector of its truth values under the p assignments; a k-set X admits a
+        # constant b iff the XOR of its vectors is all-zeros (b = 0) or all-ones
+        # (b = 1).  Counted by a subset-XOR dynamic programme, no enumeration.
+        p_ = len(planted)
+        sets_ = [set(a) for a in planted]
+        assert all(len(s_) == n and {abs(l) for l in s_} == set(range(1, n + 1)) for s_ in sets_)
+        vec = [sum(1 << i for i, s_ in enumerate(sets_) if v in s_) for v in range(1, n + 1)]
+        dp = [collections.Counter() for _ in range(k + 1)]
+        dp[0][0] = 1
+        for x in vec:
+            for j in range(k - 1, -1, -1):
+                for y, c in list(dp[j].items()):
+                    dp[j + 1][y ^ x] += c
+        return dp[k][0] + dp[k][(1 << p_) - 1]
     if n > 8:
         assert len(planted) <= 1 and all(len(a) == n for a in planted)
         return math.comb(n, k) * (2 - len(planted))
@@ -540,6 +557,34 @@ def cases(tier, seed):
                        'planted': [mixed] if pname == 'one' else [],
                        'scripted': True, 'hashing': False, 'max_dev': 0, 'default': sched,
                        'default_seed': ds, 'horizon': 5000000, 'max_execs': 5})
+    # the same total assignment planted twice with its literals in two orders
+    # (it is ONE assignment): requests at the exact capacity and one above, with
+    # k = n too, driven into the dense fallback by identical answers
+    for (kind, k, n) in (('kcnf', 3, 3), ('kcnf', 2, 2), ('kcnf', 4, 4), ('kcnf', 2, 3),
+                         ('kxor', 3, 3), ('kxor', 2, 3), ('kxor', 2, 4)):
+        mixed = [v if v % 2 else -v for v in range(1, n + 1)]
+        planted = [mixed, mixed[::-1]]
+        cap = (compatible_parities if kind == 'kxor' else compatible_clauses)(k, n, planted)
+        for m in (cap, cap + 1):
+            for sched in ('zero:%d' % (25 * cap + 60), 'mix'):
+                cs.append({'kind': kind, 'k': k, 'n': n, 'm': m, 'pname': 'same-twice-reordered',
+                           'planted': planted, 'scripted': True, 'hashing': False, 'max_dev': 0,
+                           'default': sched, 'default_seed': 1, 'horizon': 200000, 'max_execs': 5})
+    # a space of more than a million parities with planted assignments that are
+    # sums (mod 2) of each other: 7 assignments of rank 4, so a sixteenth of the
+    # parities is compatible, not a 128th
+    n = 62
+    base = [[v if (v * (i + 3) + v // (i + 2)) % (i + 2) else -v for v in range(1, n + 1)] for i in range(4)]
+
+    def xor3(a, b, c):
+        return [v if ((a[v - 1] > 0) ^ (b[v - 1] > 0) ^ (c[v - 1] > 0)) else -v for v in range(1, n + 1)]
+    planted = base + [xor3(base[0], base[1], base[2]), xor3(base[0], base[1], base[3]),
+                      xor3(base[0], base[2], base[3])]
+    cap = compatible_parities(4, n, planted)
+    for m in ((cap // 8 + 100, cap + 1) if thorough else (cap // 8 + 100,)):
+        cs.append({'kind': 'kxor', 'k': 4, 'n': n, 'm': m, 'pname': 'dependent-7-rank-4',
+                   'planted': planted, 'scripted': True, 'hashing': False, 'max_dev': 0,
+                   'default': 'mix', 'default_seed': 1, 'horizon': 5000000, 'max_execs': 2})
     if not thorough:
         # two designated heavy cases: exact maximum / dense fallback with m=4
         cs.append({'kind': 'kcnf', 'k': 1, 'n': 2, 'm': 4, 'planted': [], 'pname': 'none'})
